@@ -20,3 +20,4 @@ PROP = {'engine': 'stack',
                'healthy tail that does not recover are violations.',
  'level_note': 'the exec->exit-channel window and the internal-state TOCTOU are excluded by construction (DESIGN 7)',
  'technique': 'property-based testing (rapid): generated client programs (scripts), crash/hang/foreign-body oracle over the trace'}
+PROP['rule'] += " Round-10 addition: runtime op 'cutsent' - a response, error or init-error upload broken off half way (length announced, or chunked) by a process that lives on."
